@@ -120,9 +120,9 @@ Print Assumptions C20_every_simulation_releases_everything.
 
 (* the same, read off the line that `run` prints (two identical records, then 0) *)
 Theorem C20_model_output_all_freed : forall input,
-  exists ok res nrem time created lg,
-    run input = ([ok; res; nrem; time] ++ created ++ created ++ [0; 0; N.of_nat (length lg / 4)] ++ lg
-                 ++ [ok; res; nrem; time] ++ created ++ created ++ [0; 0; N.of_nat (length lg / 4)] ++ lg ++ [0])%N.
+  exists ok res nrem time created lg cnts,
+    run input = ([ok; res; nrem; time] ++ created ++ created ++ [0; 0; N.of_nat (length lg / 4)] ++ lg ++ cnts
+                 ++ [ok; res; nrem; time] ++ created ++ created ++ [0; 0; N.of_nat (length lg / 4)] ++ lg ++ cnts ++ [0])%N.
 Proof. exact run_prints_all_freed. Qed.
 Print Assumptions C20_model_output_all_freed.
 
@@ -135,6 +135,17 @@ Theorem C20_drop_path_irrelevant : forall pin stop arg o rest,
   /\ run_gen pin (stop :: arg :: (o + 2) :: rest)%N = run_gen pin (stop :: arg :: o :: rest).
 Proof. exact drop_path_irrelevant. Qed.
 Print Assumptions C20_drop_path_irrelevant.
+
+(* The reference counts the model prints at a stopping point (compared on every run with
+   Arc::strong_count / Arc::weak_count of the real objects) are exactly the schema's edges: in
+   every reachable graph the strong count of an object is the number of strong fields holding it
+   plus the number of handles held from outside the heap. *)
+Theorem C20_counts_are_in_degrees : forall pin input,
+  let '(s, roots, _) := stop_state pin input in
+  forall o, o < length (hp s) ->
+    strong_of (hp s) o = N.of_nat (cnt o (targets (hp s)) + cnt o roots).
+Proof. exact counts_are_in_degrees. Qed.
+Print Assumptions C20_counts_are_in_degrees.
 
 (* Non-vacuity (scripts: see coq/Own/Model.v; output: ok res nrem time created*4 once*4 notonce alive). *)
 Local Open Scope N_scope.
